@@ -65,7 +65,7 @@ def raw_cases(ctx):
     for h in fixed:
         for ty in tys:
             out.append("rawrd %s %s" % (ty, h))
-    for _ in range(300 if q else 6000):
+    for _ in range(1500 if q else 120000):
         ty = r.choice(tys)
         first = r.choice([0xc0, 0xc2, 0xc3, 0xc4, 0xc5, 0xc7, 0xc8, 0xca, 0xcb, 0xcc, 0xcd, 0xce, 0xcf, 0xd0, 0xd1, 0xd2, 0xd3, 0xd4, 0xd5,
                           0xd6, 0xd7, 0xd8, 0xd9, 0xda, 0xdc, 0xde, 0x80 + r.randrange(16), 0x90 + r.randrange(16),
@@ -80,7 +80,7 @@ def object_cases(ctx):
     r = ctx.rng
     q = ctx.quick()
     objs = []
-    n = 60 if q else 600
+    n = 160 if q else 8000
     for _ in range(n):
         objs.append(("p", r.random() < 0.6, [io.param(r)]))
     for ns in [0, 1, 2, 15, 16, 17, 40]:
@@ -100,7 +100,7 @@ def object_cases(ctx):
     for bn in [31, 32, 255, 256] + io.BIG_NAME_LENGTHS:
         objs.append(("m", True, io.model(r, depth=1, nparams=2, big_name=bn, maxvol=4)))
     for k in range(6):
-        for _ in range(4 if q else 40):
+        for _ in range(8 if q else 150):
             objs.append(("o", False, [io.optimizer(r, k)]))
     return objs
 
@@ -231,7 +231,7 @@ def run(ctx):
     # ---- 5. payload layout: little-endian, column-major, batch last
     lay = []
     r = ctx.rng
-    for _ in range(40 if ctx.quick() else 400):
+    for _ in range(150 if ctx.quick() else 3000):
         ds, b = io.shape(r, batch_ok=True, maxvol=60)
         k = max(len(ds), r.choice([1, 2, 3]))
         vol = b
@@ -245,6 +245,7 @@ def run(ctx):
     pv.correspondence(ctx, "io-layout", lay, impl, model, functional=True, impl_env=env)
 
     if not ctx.quick():
+        io.coqchk(ctx, ctx.pid)
         impl_a, _ = io.drivers(ctx, "asan")
         env_a = io.impl_env("asan")
         pv.correspondence(ctx, "io-raw-asan", raw, impl_a, model, functional=True, impl_env=env_a)
